@@ -65,6 +65,22 @@ def has_margin(Bq, picks, costs=None, rel=F(1, 2 ** 18), own=False):
     return True
 
 
+def exact_greedy(Bq, costs, k):
+    """the ranking the exact rule produces (maximise sqrt(residual) - cost, first index among exact ties), in rational arithmetic"""
+    n = len(Bq)
+    picks = []
+    for _ in range(k):
+        d = exact_follow(Bq, picks + [0])[-1] if picks else [sum(x * x for x in r) for r in Bq]
+        best = None
+        for c in range(n):
+            if c in picks:
+                continue
+            if best is None or not sqrt_le(d[c], costs[c], d[best], costs[best]):
+                best = c
+        picks.append(best)
+    return picks
+
+
 def run(chk):
     from pysensors.optimizers import CCQR, GQR, QR
     from pysensors.reconstruction import SSPOR
@@ -84,13 +100,13 @@ def run(chk):
         k = min(n, m)
         B = rng.integers(-40, 41, size=(n, m)) / 8.0
         u_k = rng.random()
-        if u_k < 0.12:
+        if u_k < 0.10:
             B, _k = gen.matrix(rng, n, m, "commonmode")           # nearly parallel sensors with well separated small individual parts
             chk.count("kind:commonmode")
-        elif u_k < 0.22:
+        elif u_k < 0.18:
             B, _k = gen.matrix(rng, n, m, "faintrows")            # independent sensors on wildly different scales
             chk.count("kind:faintrows")
-        elif u_k < 0.34 and n >= 3 and m >= 2:
+        elif u_k < 0.42 and n >= 3 and m >= 2:
             # two sensors that dominate and nearly tie: the later one is better by the factor 1 + 2^-32 (exact), the choice is unique
             i_, j_ = sorted(int(v) for v in rng.choice(n, size=2, replace=False))
             pm = rng.permutation(m)
@@ -101,7 +117,7 @@ def run(chk):
                 chk.count("kind:near-tie")
         Bq = fr_mat(B)
         costs = rng.integers(-16, 17, size=n) / 8.0
-        if u_k < 0.34 and rng.random() < 0.5:
+        if u_k < 0.42 and rng.random() < (0.8 if u_k >= 0.18 else 0.5):
             costs = np.zeros(n)
         cq = [F(float(c)) for c in costs]
         base = {"QR": [int(i) for i in QR().fit(B).get_sensors()],
@@ -123,9 +139,21 @@ def run(chk):
         gk = dict(idx_constrained=np.array(L, dtype=int), n_sensors=Nn, n_const_sensors=s, constraint_option=opt)
         base["GQR"] = [int(i) for i in impl.quiet(GQR().fit, B.copy(), all_sensors=np.array(base["QR"]), **gk).get_sensors()]
         base["GQR0"] = [int(i) for i in impl.quiet(GQR().fit, B.copy()).get_sensors()]          # GQR without constraints: vetted on its own path
-        ok_g0 = has_margin(Bq, base["GQR0"][:k], own=True)
+        g_0 = exact_greedy(Bq, [F(0)] * n, k)                # unconstrained GQR is vetted on the path of the exact rule as well
+        ok_g0 = has_margin(Bq, g_0, own=True)
+        if ok_g0 and base["GQR0"][:k] != g_0:
+            chk.violation("impl", "not-the-unique-greedy-ranking:GQR", f"GQR without constraints ranks {base['GQR0'][:k]}; the exact rule has clear winners at "
+                          f"every step and gives {g_0}", {"B": B.tolist()})
+            base["GQR0"] = g_0 + [c for c in base["GQR0"] if c not in g_0]
         ok_qr = has_margin(Bq, base["QR"][:k])
-        ok_cc = has_margin(Bq, base["CCQR"][:k], cq, own=True)
+        # CCQR is vetted on the path of the EXACT rule (not on its own answer): where that path has clear winners it is the one
+        # admissible ranking, for the matrix as given and for every transformed copy alike
+        g_cc = exact_greedy(Bq, cq, k)
+        ok_cc = has_margin(Bq, g_cc, cq, own=True)
+        if ok_cc and base["CCQR"][:k] != g_cc:
+            chk.violation("impl", "not-the-unique-greedy-ranking:CCQR", f"CCQR ranks {base['CCQR'][:k]}; the exact rule has clear winners at every step and "
+                          f"gives {g_cc}", {"B": B.tolist(), "costs": costs.tolist()})
+            base["CCQR"] = g_cc + [c for c in base["CCQR"] if c not in g_cc]
         ok_gq = ok_qr or (has_margin(Bq, base["QR"][:k], own=True) and base["GQR"][:Nn] == base["QR"][:Nn])
         case0 = {"B": B.tolist(), "costs": costs.tolist(), "region": L, "N": Nn, "s": s, "option": opt, "base": base}
         # ---------------- (1) orthogonal mixing on the right
